@@ -17,7 +17,7 @@ func (in *Interp) freshInput(name string, s Sort) string {
 	if n > 0 {
 		full = fmt.Sprintf("%s#%d", name, n)
 	}
-	t := in.ts.Var(full, s)
+	t := in.ts.Var(full+"@"+s.String(), s)
 	in.inputs = append(in.inputs, inputRec{Name: full, Sort: s, term: t})
 	return full
 }
@@ -27,7 +27,7 @@ func (in *Interp) input(nameV Value, s Sort) *Term {
 	if !ok {
 		panic(pathAbort{"harness: input name must be concrete"})
 	}
-	return in.ts.Var(in.freshInput(name, s), s)
+	return in.ts.Var(in.freshInput(name, s)+"@"+s.String(), s)
 }
 
 func toBoolTerm(in *Interp, v Value) *Term {
@@ -197,6 +197,35 @@ func (in *Interp) svCall(fr *Frame, name string, args []Value, fn *ssa.Function)
 		return in.strEq(args[0], args[1])
 	case "Outcome":
 		return in.outcome(fr, args[0])
+	case "Setup":
+		key := args[0].(string)
+		if v, ok := in.setups[in.harness+"|"+key]; ok {
+			return v
+		}
+		in.logging = false
+		in.setupCells, in.setupMaps = map[*Cell]bool{}, map[*Map]bool{}
+		nt := len(in.trace)
+		v := in.callValue(fr, args[1], nil)
+		in.logging = true
+		cells, maps := in.setupCells, in.setupMaps
+		in.setupCells, in.setupMaps = nil, nil
+		if len(in.trace) != nt {
+			panic(pathAbort{"harness: sv.Setup(" + key + ") body made a decision"})
+		}
+		// the body must not have written anything this path had already
+		// changed (the rollback would undo the body's write)
+		for _, u := range in.undo {
+			if cells[u.c] {
+				panic(pathAbort{"harness: sv.Setup(" + key + ") wrote state the path had already modified"})
+			}
+		}
+		for _, u := range in.mundo {
+			if maps[u.m] {
+				panic(pathAbort{"harness: sv.Setup(" + key + ") wrote a map the path had already modified"})
+			}
+		}
+		in.setups[in.harness+"|"+key] = v
+		return v
 	case "Symbolic":
 		return true
 	case "Logf":
@@ -341,7 +370,7 @@ func describeBits(s Sort, bits uint64) string {
 func (in *Interp) witness(id string, model map[string]uint64) *Witness {
 	w := &Witness{Harness: in.harness, Assert: id, Inputs: map[string]WitnessInput{}, Events: append([]string(nil), in.events...)}
 	for _, inp := range in.inputs {
-		bits := model[inp.Name]
+		bits := model[inp.term.name]
 		w.Inputs[inp.Name] = WitnessInput{Sort: inp.Sort.String(), Bits: fmt.Sprintf("%#x", bits), Pretty: describeBits(inp.Sort, bits)}
 	}
 	for _, d := range in.trace {
